@@ -61,7 +61,9 @@ ZE = complex(8 * S, 9 * S)
 
 
 def lmax(tier):
-    return 2 if tier == 'quick' else 3
+    # tier names used internally: 'quick' (LMAX 2, pool 3), 'thorough' (LMAX 2, pool 4 incl. an Arc),
+    # 'deep' (LMAX 3, pool 3; scipy configuration only) - the thorough command runs the last two
+    return 3 if tier == 'deep' else 2
 
 
 # ---------------------------------------------------------------- state keys
@@ -175,7 +177,10 @@ def legit_length(a, segs, args):
     truth = [fresh_len(s, FINE) for s in segs]
     fr = [fresh_len(s, args) for s in segs]
     bound = sum(abs(f - t) for f, t in zip(fr, truth))
-    return abs(a - sum(truth)) <= bound * (1 + 1e-9) + TOL
+    try:
+        return abs(float(a) - sum(truth)) <= bound * (1 + 1e-9) + TOL
+    except (TypeError, ValueError):
+        return False        # not a number at all
 
 
 def rebuild_by_value(s):
